@@ -129,8 +129,10 @@ func (a *API) onRecordingDeleteSegment(ctx *gin.Context) {
 		return
 	}
 
+	// segments are named after their start instant in the local time zone,
+	// whatever UTC offset the request is written with
 	segmentPath := recordstore.Path{
-		Start: start,
+		Start: start.Local(),
 	}.Encode(pathFormat)
 
 	segmentPath, err = absolutePathInside(commonPath, segmentPath)
